@@ -1088,7 +1088,10 @@ def check_c15(mon):
                     mon.v('C15', '%s.%s:changed-by-run' % (name, k), 'hyperparameter %s changed from %r to %r (%s)' % (k, hp0[k], v, when), v, hp0[k])
                 continue
             x = num(v)
-            if name in ('AIWPSO', 'IHS'):
+            if name in ('AIWPSO', 'IHS') and when in ('hook 0', 'hook 1') and same(v, hp0[k]):
+                pass        # before the first write (AIWPSO writes w after the sweep of iteration 0, i.e. after hook 1): a range declared around another value than the
+                #             inherited one (w, PAR, bw of the parent class) takes effect with the first write
+            elif name in ('AIWPSO', 'IHS'):
                 lo, hi = {'w': ('w_min', 'w_max'), 'PAR': ('PAR_min', 'PAR_max'), 'bw': ('bw_min', 'bw_max')}[k]
                 if not (num(hp[lo]) <= x <= num(hp[hi])):
                     cls = 'nan' if x != x else 'out-of-range'
